@@ -14,41 +14,76 @@ BITS_Q = [0, 1, 61, 62, 63, 64, 65, 127, 128]
 BITS_T = BITS_Q + [2, 60, 126, 129, 191, 192, 200, 300]
 
 
+FIX_Q = [0, -1, 1, 5, -6, (1 << 61) - 1, -(1 << 61)]
+FIX_T = FIX_Q + [2, -2, 1 << 31, (1 << 32) - 1, 1 << 32, -(1 << 32), (1 << 61) - 2, 0x1555555555555555, -0x0aaaaaaaaaaaaaab,
+                 1 << 60, -(1 << 60) - 1]
+
+
+def cval(v):
+    return '(%dL)' % v if v > -(1 << 61) else '(-%dL-1)' % ((1 << 61) - 1)
+
+
 def queries(tier):
     qs = []
     maxk = 2 if tier == 'quick' else 3
-    cap = 240 if tier == 'quick' else 1500
+    cap = 300 if tier == 'quick' else 1800
+    fix = FIX_Q if tier == 'quick' else FIX_T
+    pf = ['cadical', 'minisat', 'kissat']
     for op, n in OPS.items():
-        for xk in range(0, maxk + 1):
-            for yk in range(0, maxk + 1):
+        # fixnum x fixnum: both lattice constants (one-line real path; kind tests must fold, see R10)
+        for xv in fix[:5]:
+            for yv in fix[:5]:
+                qs.append(Query(name='bit_%s[fix=%d,fix=%d]' % (op, xv, yv), harness='C17_bit.c', units=UNITS,
+                                defs={'OP': n, 'XK': 0, 'YK': 0, 'XV': cval(xv), 'YV': cval(yv)}, unwind=6, cap=cap,
+                                backends=['minisat'], functions=['sexp_bit_' + op]))
+        for k in range(1, maxk + 1):
+            for v in fix:
+                for order in (0, 1):
+                    d = {'OP': n, 'XK': 0, 'YK': k, 'XV': cval(v)} if order == 0 else {'OP': n, 'XK': k, 'YK': 0, 'YV': cval(v)}
+                    nm = 'bit_%s[fix=%d,big%d]' % (op, v, k) if order == 0 else 'bit_%s[big%d,fix=%d]' % (op, k, v)
+                    qs.append(Query(name=nm, harness='C17_bit.c', units=UNITS, defs=d, unwind=6, cap=cap, backends=pf,
+                                    functions=['sexp_bit_' + op]))
+        for xk in range(1, maxk + 1):
+            for yk in range(1, maxk + 1):
                 if tier == 'quick' and xk + yk > 3:
                     continue
-                qs.append(Query(name='bit_%s[x=%d,y=%d]' % (op, xk, yk), harness='C17_bit.c', units=UNITS,
-                                defs={'OP': n, 'XK': xk, 'YK': yk, 'KIT_MAXW': 4}, unwind=6, cap=cap,
-                                backends=['cadical', 'minisat', 'kissat'], functions=['sexp_bit_' + op]))
-    for xk in range(0, maxk + 1):
-        for c in (SHIFTS_Q if tier == 'quick' else SHIFTS_T):
-            qs.append(Query(name='shift[x=%d,c=%d]' % (xk, c), harness='C17_bit.c', units=UNITS,
-                            defs={'OP': 4, 'XK': xk, 'YK': 0, 'SHIFT': '(%d)' % c, 'KIT_MAXW': 6, 'WIDE_BITS': 448},
+                qs.append(Query(name='bit_%s[big%d,big%d]' % (op, xk, yk), harness='C17_bit.c', units=UNITS,
+                                defs={'OP': n, 'XK': xk, 'YK': yk}, unwind=6, cap=cap, backends=pf,
+                                functions=['sexp_bit_' + op]))
+    shifts = SHIFTS_Q if tier == 'quick' else SHIFTS_T
+    for c in shifts:
+        for v in fix:
+            if v == 0 and c > 1:
+                continue
+            qs.append(Query(name='shift[fix=%d,c=%d]' % (v, c), harness='C17_bit.c', units=UNITS,
+                            defs={'OP': 4, 'XK': 0, 'YK': 0, 'XV': cval(v), 'SHIFT': '(%d)' % c, 'KIT_MAXW': 6, 'WIDE_BITS': 448},
                             unwind=8, unwindset={'log2i.0': 66}, cap=cap, backends=['cadical', 'minisat'],
                             functions=['sexp_arithmetic_shift']))
-        qs.append(Query(name='bit_count[x=%d]' % xk, harness='C17_bit.c', units=UNITS,
+        for xk in range(1, maxk + 1):
+            qs.append(Query(name='shift[big%d,c=%d]' % (xk, c), harness='C17_bit.c', units=UNITS,
+                            defs={'OP': 4, 'XK': xk, 'YK': 0, 'SHIFT': '(%d)' % c, 'KIT_MAXW': 6, 'WIDE_BITS': 448},
+                            unwind=8, unwindset={'log2i.0': 66}, cap=cap, backends=pf,
+                            functions=['sexp_arithmetic_shift']))
+    for xk in range(0, maxk + 1):
+        kn = 'fixnum' if xk == 0 else 'big%d' % xk
+        qs.append(Query(name='bit_count[%s]' % kn, harness='C17_bit.c', units=UNITS,
                         defs={'OP': 5, 'XK': xk, 'YK': 0}, unwind=6,
-                        unwindset={'wide_popcount.0': 64 * 4 + 1}, cap=cap, backends=['cadical', 'minisat', 'kissat'],
+                        unwindset={'wide_popcount.0': 64 * 4 + 1}, cap=cap, backends=pf,
                         functions=['sexp_bit_count']))
-        qs.append(Query(name='integer_length[x=%d]' % xk, harness='C17_bit.c', units=UNITS,
+        qs.append(Query(name='integer_length[%s]' % kn, harness='C17_bit.c', units=UNITS,
                         defs={'OP': 6, 'XK': xk, 'YK': 0}, unwind=6,
-                        unwindset={'wide_length.0': 64 * 4 + 1}, cap=cap, backends=['cadical', 'minisat', 'kissat'],
+                        unwindset={'wide_length.0': 64 * 4 + 1}, cap=cap, backends=pf,
                         functions=['sexp_integer_length']))
         for b in (BITS_Q if tier == 'quick' else BITS_T):
-            qs.append(Query(name='bit_set_p[x=%d,i=%d]' % (xk, b), harness='C17_bit.c', units=UNITS,
+            qs.append(Query(name='bit_set_p[%s,i=%d]' % (kn, b), harness='C17_bit.c', units=UNITS,
                             defs={'OP': 7, 'XK': xk, 'YK': 0, 'SHIFT': b}, unwind=6, cap=cap,
                             backends=['cadical', 'minisat'], functions=['sexp_bit_set_p']))
     return qs
 
 
 def bounds(tier):
-    return {'operand_kinds': 'fixnum (all 62 value bits free) or bignum with exactly k words, k<=%d, every word free, either sign, '
+    return {'fixnum_lattice': FIX_Q if tier == 'quick' else FIX_T,
+            'operand_kinds': 'fixnum (binary ops and shift: a constant from fixnum_lattice per query; unary ops: all 62 value bits free) or bignum with exactly k words, k<=%d, every word free, either sign, '
                              'leading zero words allowed, value not representable as fixnum' % (2 if tier == 'quick' else 3),
             'shift_counts': SHIFTS_Q if tier == 'quick' else SHIFTS_T,
             'bit_indices': BITS_Q if tier == 'quick' else BITS_T,
